@@ -1,3 +1,5 @@
+import FM.Generated.Patterns
+import FM.Model.PatternBaseline
 import FM.Lemmas.RenderPD
 import FM.Model.Render
 import FM.Model.Transforms
@@ -172,5 +174,10 @@ theorem SPAN_VERBATIM (t : Str) :
 /-- non-vacuity: fence-like content forces a longer fence -/
 example : minFenceLength "a\n````\n  ```\nb".toList '`' = 5 := by decide
 example : minFenceLength "a\n    ````\nb".toList '`' = 3 := by decide
+
+
+/-- PATTERNS_AS_MODELLED: the regular expressions of the source files this property's models were written against
+(regenerated from /repo's working tree on every run by harness/translate_patterns.py) are the recorded ones. -/
+theorem PATTERNS_AS_MODELLED : FM.Gen.patterns_C04 = FM.Baseline.patterns_C04 := by decide
 
 end FM.C04
